@@ -66,6 +66,12 @@ type tcase struct {
 	// ACLBlind: the ACL checker cannot read headers from the local storage, so an object-header rule
 	// can only be evaluated once the handler produced the header.
 	ACLBlind bool
+	// RemoteHolds: the local node is a container node but the objects are held by the two other
+	// container nodes (reachable fake nodes), so object data and headers come over the network.
+	RemoteHolds bool
+	// thorough tier only
+	Scheme string // request signature scheme: "" (ECDSA_SHA512) | rfc6979 | walletconnect
+	Raw    bool   // raw flag of Get/Head/GetRange
 }
 
 func (c tcase) op() string {
@@ -80,14 +86,26 @@ func (c tcase) String() string {
 	if c.ACLBlind {
 		s += " aclCannotReadLocalHeaders"
 	}
+	if c.RemoteHolds {
+		s += " objectsHeldByOtherContainerNodes"
+	}
+	if c.Scheme != "" {
+		s += " scheme=" + c.Scheme
+	}
+	if c.Raw {
+		s += " raw"
+	}
 	return s
 }
 
 // setup returns the world configuration, the request parameters and the post-signing mutation of
 // the faulty request (twin=false) or of its fault-free twin (twin=true).
 func setup(c tcase, twin bool) (cfg sw.Config, p sw.Params, post func(w *sw.World, reqs []any) error, applicable bool) {
-	cfg = sw.Config{BasicACL: sw.AllowAllACL(), LocalInContainer: c.LocalIn, ACLSeesLocalHeaders: !c.ACLBlind}
-	p = sw.Params{Signer: sw.Owner, TTL: c.TTL}
+	cfg = sw.Config{BasicACL: sw.AllowAllACL(), LocalInContainer: c.LocalIn, ACLSeesLocalHeaders: !c.ACLBlind, RemoteHolds: c.RemoteHolds}
+	if c.RemoteHolds && (!c.LocalIn || c.TTL != 2 || c.ACLBlind) {
+		return cfg, p, nil, false
+	}
+	p = sw.Params{Signer: sw.Owner, TTL: c.TTL, Raw: c.Raw}
 	if c.Method == "Get" {
 		p.Shape = c.Shape
 	}
@@ -113,7 +131,7 @@ func setup(c tcase, twin bool) (cfg sw.Config, p sw.Params, post func(w *sw.Worl
 			post = func(_ *sw.World, reqs []any) error {
 				v := victim(reqs)
 				sw.Unsign(v)
-				if err := sw.SignAll([]any{v}, sw.Stranger); err != nil {
+				if err := sw.SignAllScheme([]any{v}, sw.Stranger, c.Scheme); err != nil {
 					return err
 				}
 				sw.ClaimKey(v, sw.Pub(sw.Owner))
@@ -230,6 +248,7 @@ type outcome struct {
 	BodySize int
 	NMsg     int
 	ErrDelta uint32 // growth of the shard error counters during the call
+	Trace    []string
 }
 
 func run(c tcase, twin bool) (outcome, bool, error) {
@@ -246,7 +265,7 @@ func run(c tcase, twin bool) (outcome, bool, error) {
 	if err != nil {
 		return outcome{}, true, err
 	}
-	if err := sw.SignAll(reqs, p.Signer); err != nil {
+	if err := sw.SignAllScheme(reqs, p.Signer, c.Scheme); err != nil {
 		return outcome{}, true, err
 	}
 	if post != nil {
@@ -286,6 +305,7 @@ func run(c tcase, twin bool) (outcome, bool, error) {
 		o.BodySize += sw.BodySize(m)
 	}
 	o.Effects = w.Effects()
+	o.Trace = w.Rec.Of("handler-open", "handler", "storage", "net", "remote")
 	errsAfter, _ := w.ShardState()
 	o.ErrDelta = errsAfter - errsBefore
 	after, err := sw.SnapTree(w.Dir)
@@ -346,10 +366,10 @@ func forbidden(c tcase, eff []string) []string {
 			if strings.HasPrefix(e, "net:") || e == "storage:Put" {
 				bad = append(bad, e)
 			}
-		case c.Fault == "eacl-denied-on-object-header" && c.ACLBlind:
+		case c.Fault == "eacl-denied-on-object-header" && (c.ACLBlind || c.RemoteHolds && (c.Method == "Get" || c.Method == "Head")):
 			// the header has to be obtained by the handler to evaluate the rule: reads are inherent.
 			// What matters is (checked separately) that nothing is written and no object byte is sent.
-			if strings.HasPrefix(e, "net:") || name == "Put" || name == "Delete" || name == "Drop" || name == "InhumeContainer" {
+			if strings.HasPrefix(e, "net:") && !c.RemoteHolds || name == "Put" || name == "Delete" || name == "Drop" || name == "InhumeContainer" {
 				bad = append(bad, e)
 			}
 		case c.Fault == "eacl-denied-on-object-header" && strings.HasPrefix(e, "storage:") && sw.HeaderReads[name]:
@@ -403,6 +423,11 @@ func main() {
 		desc := fmt.Sprintf("%s -> status=%s %q messages=%d bodyBytes=%d effects=%v shardErrorCounter+=%d treeDiff=%v; twin without the fault -> status=%s %q effects=%s",
 			c, got.Status, got.Detail, got.NMsg, got.BodySize, got.Effects, got.ErrDelta, got.TreeDiff, twin.Status, twin.Detail, effectClasses(twin.Effects))
 		key := c.op() + ":" + c.Fault
+		if r.Replay != "" {
+			fmt.Println(desc)
+			fmt.Println("  trace of the faulty request:", got.Trace)
+			fmt.Println("  trace of the twin request:  ", twin.Trace)
+		}
 		isRemoved := twin.Status == "grpc:Unimplemented" && len(twin.Effects) == 0 && got.Status == "grpc:Unimplemented"
 		bad := forbidden(c, got.Effects)
 		// One defect class of its own: the eACL denial raised from the header callback of a LOCAL read
@@ -506,6 +531,19 @@ func main() {
 						for _, blind := range []bool{false, true} {
 							cases = append(cases, tcase{Method: m, Shape: sh, Fault: f, TTL: ttl, LocalIn: in, ACLBlind: blind})
 						}
+						cases = append(cases, tcase{Method: m, Shape: sh, Fault: f, TTL: ttl, LocalIn: in, RemoteHolds: true})
+						if r.Thorough() {
+							for _, scheme := range []string{"", "rfc6979", "walletconnect"} {
+								for _, raw := range []bool{false, true} {
+									if scheme == "" && !raw || raw && m != "Get" && m != "Head" && m != "GetRange" {
+										continue
+									}
+									for _, remote := range []bool{false, true} {
+										cases = append(cases, tcase{Method: m, Shape: sh, Fault: f, TTL: ttl, LocalIn: in, RemoteHolds: remote, Scheme: scheme, Raw: raw})
+									}
+								}
+							}
+						}
 					}
 				}
 			}
@@ -540,7 +578,11 @@ func main() {
 		rm = append(rm, m)
 	}
 	for k := range notApplicable {
-		if perOpFault[k] == 0 {
+		op := strings.SplitN(k, " x ", 2)[0]
+		if i := strings.IndexByte(op, '['); i > 0 {
+			op = op[:i]
+		}
+		if perOpFault[k] == 0 && !removed[op] {
 			na = append(na, k)
 		}
 	}
